@@ -34,6 +34,7 @@ type RC struct {
 	troles     *timerRoles
 	clusterRec map[*FuncInfo]*Analysis
 	verifiers  []*FuncInfo
+	cfgChecker *FuncInfo
 	cfgNonNil  map[string]bool
 	cfgNonZero map[string]bool
 }
